@@ -83,6 +83,7 @@ type tcase struct {
 	Cls   string          `json:"cls"`
 	V     string          `json:"v"`
 	Side  string          `json:"side"`
+	Kink  bool            `json:"kink"`
 	Pmf   []rat           `json:"pmf"`
 	Scale json.RawMessage `json:"scale"`
 	Tail  rat             `json:"tail"`
@@ -697,7 +698,8 @@ func replayEval(f *family, c *tcase) {
 			mismatch(s, d)
 		}
 		counts["type_pairs"]++
-	} else if (a.err == nil) != (b.err == nil) || (a.pm == "") != (b.pm == "") {
+	} else if (a.err == nil && a.pm == "") != (b.err == nil && b.pm == "") {
+		// an error and a panic are the same observation (loud rejection, DESIGN 3.6)
 		s := vh.M{"fam": c.Fam, "op": c.Op, "what": "scalar_type_dependence_error", "cls": c.Cls}
 		d := caseDetail(c, f)
 		d["x"] = jfs(xs)
@@ -855,7 +857,11 @@ func record(casesPath, tracePath, resultsPath string) {
 			if _, ok := grids[k]; !ok {
 				order = append(order, k)
 			}
-			grids[k] = append(grids[k], gridPoint{c.X[0].f(), "in", c.Cls})
+			cls := c.Cls
+			if c.Kink {
+				cls = "kink"
+			}
+			grids[k] = append(grids[k], gridPoint{c.X[0].f(), "in", cls})
 		}
 		return nil
 	})
@@ -944,7 +950,7 @@ func record(casesPath, tracePath, resultsPath string) {
 					if pt.pos == "in" && pt.x == math.Floor(pt.x) && !math.IsNaN(prev) {
 						dok = closeTo(cdf-prev, pdf, 1e-9)
 					}
-				} else if useAD && !math.IsNaN(pdf) && !math.IsInf(pdf, 0) && pt.cls != "boundary" {
+				} else if useAD && !math.IsNaN(pdf) && !math.IsInf(pdf, 0) && pt.cls != "boundary" && pt.cls != "kink" {
 					dok = closeTo(dcdf, pdf, 1e-7*(1+pdf))
 				}
 			}
